@@ -111,7 +111,18 @@ func (cc *LBClient) init() {
 
 // AddClient adds a new client to the balanced clients and
 // returns the new total number of clients.
+// initFromClients makes sure the clients listed in Clients are taken over
+// before the list is modified: otherwise a RemoveClients call made before the
+// first request has nothing to remove, and the removed clients come back when
+// the first request initializes the list.
+func (cc *LBClient) initFromClients() {
+	if len(cc.Clients) > 0 {
+		cc.once.Do(cc.init)
+	}
+}
+
 func (cc *LBClient) AddClient(c BalancingClient) int {
+	cc.initFromClients()
 	cc.mu.Lock()
 	defer cc.mu.Unlock()
 	cc.cs = append(cc.cs, &lbClient{
@@ -125,6 +136,7 @@ func (cc *LBClient) AddClient(c BalancingClient) int {
 // If rc returns true, the passed client will be removed.
 // Returns the new total number of clients.
 func (cc *LBClient) RemoveClients(rc func(BalancingClient) bool) int {
+	cc.initFromClients()
 	cc.mu.Lock()
 	// defer so a panic in the user-supplied rc can't leak the lock.
 	defer cc.mu.Unlock()
